@@ -28,7 +28,8 @@ def harness_source(caps):
 def build(caps, sanitize=False, tag="containers"):
     flags = ["-std=c++11", "-O1", "-Wall", "-Wextra", "-ftemplate-depth=1024"]
     if sanitize:
-        flags += ["-g", "-fsanitize=address,undefined", "-fno-sanitize-recover=all"]
+        # -O0: g++'s UBSan instruments more at -O0 (e.g. reference binding to a misaligned packed member, F8)
+        flags = [f for f in flags if f != "-O1"] + ["-O0", "-g", "-fsanitize=address,undefined", "-fno-sanitize-recover=all"]
     return C.build_harness(tag + ("_san" if sanitize else ""), harness_source(caps), flags)
 
 
